@@ -383,6 +383,15 @@ def run(ctx):
     c07.check_pmtree(sub, fbd)
     for r in sub.results:
         (ctx.ok if r.status == "ok" else ctx.fail)("R01-10", r.instance, r.reason, r.loc)
+    # R01-12 (shared with C06 R06-11 / C17 R17-3): the member's Merkle path is read back from the store: the key-value adapter
+    # persists every record it is handed and the node codec is the 32-byte field codec (a record dropped or altered on the way
+    # gives a path that does not recompute the tree's root, and the proof made from it is rejected)
+    sub = _Ctx(ctx.pid, ctx.tier)
+    c06.check_store_adapter(sub, fbd)
+    from . import c17
+    c17.check_hashers(sub, "default", fbd)
+    for r in sub.results:
+        (ctx.ok if r.status == "ok" else ctx.fail)("R01-12", r.instance, r.reason, r.loc)
     # R01-11 (shared with C02 R02-1..R02-3): "verifies": the verification entry points accept under exactly the specified conditions
     # (Groth16 check, x binding, root equal to the tree's root / member of the whole supplied root set)
     from . import c02
